@@ -78,6 +78,26 @@ void gcd_case(vf::Run& r, const char* tn, T a, T b) {
     if ((u128)ua * fb != (u128)fa * ub) { r.fail("reduce_fraction" + K + ":ratio-changed", d2); bad = true; }
     if ((ua == 0) != (fa == 0) || (ub == 0) != (fb == 0)) { r.fail("reduce_fraction" + K + ":ratio-changed", d2); bad = true; }
   }
+  // aliased forms: the result overwrites an operand, the reduced pair overwrites the pair it was read from, both
+  // parameters are bound to the same object.  Same function values as above are demanded.
+  {
+    T x = a, y = b, x2 = a, y2 = b;
+    std::pair<T, T> p(a, b);
+    T same = a, gs = 0;
+    int sig = trapped([&] {
+      x = phosg::gcd<T>(x, y);
+      y2 = phosg::gcd<T>(x2, y2);
+      p = phosg::reduce_fraction<T>(p.first, p.second);
+      gs = phosg::gcd<T>(same, same);
+    });
+    if (sig || x != g || y2 != g || p != f || gs != a) {
+      bad = true;
+      r.fail("gcd" + K + ":aliased-forms-differ", [&] {
+        return vf::fmt("<%s> a=%s b=%s: x = gcd(x, y) gave %s, y = gcd(x, y) gave %s (gcd into a separate object: %s); p = reduce_fraction(p.first, p.second) gave (%s, %s) (into a separate object: (%s, %s)); gcd(a, a) gave %s%s", tn,
+            s128(a).c_str(), s128(b).c_str(), s128(x).c_str(), s128(y2).c_str(), s128(g).c_str(), s128(p.first).c_str(), s128(p.second).c_str(), s128(f.first).c_str(), s128(f.second).c_str(), s128(gs).c_str(), sig ? "; a signal was raised" : "");
+      });
+    }
+  }
   if (!bad) r.ok(ug == 1 ? "coprime operands" : (a == 0 || b == 0) ? "one operand zero" : "common factor removed");
 }
 
@@ -242,7 +262,11 @@ void log2i_case(vf::Run& r, const char* tn, T v) {
   if (r.wants_desc()) r.desc(vf::fmt("log2i<%s>(%s)", tn, s128(v).c_str()));
   T e = phosg::log2i<T>(v);
   r.nontriv();
-  if (!log2i_ok<T>(v, e)) {
+  T x = v;
+  x = phosg::log2i<T>(x);  // the result overwrites the argument
+  if (x != e) {
+    r.fail(std::string("log2i<") + tn + ">:aliased-form-differs", [&] { return vf::fmt("x = log2i<%s>(x) with x = %s gave %s, into a separate object %s", tn, s128(v).c_str(), s128(x).c_str(), s128(e).c_str()); });
+  } else if (!log2i_ok<T>(v, e)) {
     r.fail(std::string("log2i<") + tn + ">:wrong-value", [&] { return vf::fmt("log2i<%s>(%s) returned %s, floor(log2 v) is %d", tn, s128(v).c_str(), s128(e).c_str(), ref_log2((uint64_t)v)); });
   } else r.ok((((uint64_t)v & ((uint64_t)v - 1)) == 0) ? "exact power of two" : "between powers of two");
 }
